@@ -383,6 +383,9 @@ func (e *Engine) storePtr(st *State, p *Ptr, v Val) {
 			cur := fmt.Sprintf("(select (select %s %s) %s)", h, p.Ref, p.Idx)
 			nv = e.setPath(cur, p.Root, p.Path, tv)
 		}
+		if strings.HasPrefix(p.Ref, "ref_") && len(p.Path) == 0 && len(e.smallArr[p.Ref]) < 64 {
+			e.smallArr[p.Ref] = append(e.smallArr[p.Ref], v)
+		}
 		e.heapSet(st, name, sort, fmt.Sprintf("(store %s %s (store (select %s %s) %s %s))", h, p.Ref, h, p.Ref, p.Idx, nv))
 	case pBox:
 		if at, ok := p.Root.Underlying().(*types.Array); ok && len(p.Path) == 0 {
